@@ -558,7 +558,7 @@ func compressible(op primitive.OpCode) bool {
 }
 
 // replyMsg encodes and sends a response; returns the frame sent.
-func (c *Conn) replyMsg(v primitive.ProtocolVersion, stream int16, msg message.Message, extra *frame.Body) *wire.Frame {
+func (c *Conn) replyMsg(v primitive.ProtocolVersion, stream int16, msg message.Message, extra *frame.Body, pre ...func(*wire.Frame)) *wire.Frame {
 	b := &frame.Body{Message: msg}
 	if extra != nil {
 		b.TracingId, b.CustomPayload, b.Warnings = extra.TracingId, extra.CustomPayload, extra.Warnings
@@ -569,10 +569,10 @@ func (c *Conn) replyMsg(v primitive.ProtocolVersion, stream int16, msg message.M
 		plain, flags, _ = wire.EncodeBody(v, &frame.Body{Message: &message.ServerError{ErrorMessage: "fakecass encode: " + err.Error()}}, true)
 		msg = &message.ServerError{}
 	}
-	return c.replyRaw(v, stream, msg.GetOpCode(), flags, plain)
+	return c.replyRaw(v, stream, msg.GetOpCode(), flags, plain, pre...)
 }
 
-func (c *Conn) replyRaw(v primitive.ProtocolVersion, stream int16, op primitive.OpCode, flags byte, plain []byte) *wire.Frame {
+func (c *Conn) replyRaw(v primitive.ProtocolVersion, stream int16, op primitive.OpCode, flags byte, plain []byte, pre ...func(*wire.Frame)) *wire.Frame {
 	alg := ""
 	c.h.c.mu.Lock()
 	if c.Comp != "" && compressible(op) {
@@ -582,6 +582,9 @@ func (c *Conn) replyRaw(v primitive.ProtocolVersion, stream int16, op primitive.
 	f, err := wire.Build(v, true, flags, stream, op, plain, alg)
 	if err != nil {
 		return nil
+	}
+	for _, p := range pre {
+		p(f) // record what is about to be sent before the peer can observe it
 	}
 	c.write(f)
 	return f
@@ -962,7 +965,7 @@ func (c *Conn) scriptedWithID(f *wire.Frame, plain []byte, token string, okMsg f
 	text := fmt.Sprintf("scripted %s tok=%s attempt=%d host=%d", o.Kind, token, a.N, c.h.Idx)
 	switch o.Kind {
 	case "ok", "":
-		setReply(c.replyMsg(v, f.Stream, ok(), nil))
+		c.replyMsg(v, f.Stream, ok(), nil, setReply)
 	case "hold":
 		cl.mu.Lock()
 		cl.heldq = append(cl.heldq, &held{conn: c, stream: f.Stream, version: v, token: token, n: a.N})
@@ -973,24 +976,24 @@ func (c *Conn) scriptedWithID(f *wire.Frame, plain []byte, token string, okMsg f
 	case "drop":
 		return false
 	case "reply_drop":
-		setReply(c.replyMsg(v, f.Stream, ok(), nil))
+		c.replyMsg(v, f.Stream, ok(), nil, setReply)
 		return false
 	case "raw":
 		body, _ := hex.DecodeString(o.RawBody)
-		setReply(c.replyRaw(v, f.Stream, primitive.OpCode(o.RawOp), byte(o.RawFlags), body))
+		c.replyRaw(v, f.Stream, primitive.OpCode(o.RawOp), byte(o.RawFlags), body, setReply)
 	case "wrong_stream":
-		setReply(c.replyMsg(v, f.Stream+1000, ok(), nil))
+		c.replyMsg(v, f.Stream+1000, ok(), nil, setReply)
 	case "duplicate":
 		m := ok()
-		setReply(c.replyMsg(v, f.Stream, m, nil))
+		c.replyMsg(v, f.Stream, m, nil, setReply)
 		c.replyMsg(v, f.Stream, m, nil)
 	case "garbage":
 		c.WriteRaw([]byte{0xde, 0xad, 0xbe, 0xef, 0, 1, 2, 3, 4, 5, 6, 7, 8, 9, 10, 11})
 	default:
 		if m := ErrorFor(o, text, v, id); m != nil {
-			setReply(c.replyMsg(v, f.Stream, m, nil))
+			c.replyMsg(v, f.Stream, m, nil, setReply)
 		} else {
-			setReply(c.replyMsg(v, f.Stream, &message.ServerError{ErrorMessage: "fakecass: unknown outcome " + o.Kind}, nil))
+			c.replyMsg(v, f.Stream, &message.ServerError{ErrorMessage: "fakecass: unknown outcome " + o.Kind}, nil, setReply)
 		}
 	}
 	return true
